@@ -352,6 +352,10 @@ def _run(plan, base):
     except Violation as v:
         viol = {"clause": v.clause, "sig": v.sig, "detail": v.detail}
     xplan = dict(plan)
+    if viol:
+        # for the reader of the replay file: the schedule that was actually executed
+        # ([worker, lines run, why] slices); replay re-derives it from sched_seed unless "trace" is set
+        xplan["recorded_schedule"] = next((e[4] for e in reversed(log) if e[0] == "sim"), None)
     stats["distinct"].append(f"geom|{ns % stride}|{plan['nbatch']}|{plan['nproc']}")
     stats["outcomes"]["violation" if viol else "held"] = 1
     return {"violation": viol, "stats": stats, "digest": digest(log), "plan": xplan,
